@@ -173,21 +173,21 @@ def update_uid_counter(H, idx):
 
     """
     uid = next(H._edge_uid)
+    start = uid
     try:
         # tuple comes from merging edges and doesn't have as as_integer() method.
-        # An ID that cannot be read as a number (or is too large for a float)
+        # An ID that cannot be read as a number, is too large for a float or
+        # cannot be compared with an integer (b"5") is not an integer ID: it
         # must not make the call fail after the edge has been stored.
-        is_integer = isinstance(idx, int) or (
+        if isinstance(idx, int) or (
             not isinstance(idx, (str, tuple)) and float(idx).is_integer()
-        )
+        ):
+            if uid <= idx:
+                # we set the start at one plus the maximum edge ID that is an
+                # integer, because count() only yields integer IDs.
+                start = int(idx) + 1
     except (TypeError, ValueError, OverflowError):
-        is_integer = False
-    if is_integer and uid <= idx:
-        start = int(idx) + 1
-        # we set the start at one plus the maximum edge ID that is an integer,
-        # because count() only yields integer IDs.
-    else:
-        start = uid
+        pass
     H._edge_uid = count(start=start)
 
 
